@@ -17,7 +17,7 @@
 
   Only property theorems live here (C11_*); helper lemmas are in Lemmas/C11.lean.
 -/
-import GilVerif.Lemmas.C11Bmp
+import GilVerif.Lemmas.C11Wf
 
 namespace GilVerif.Props.C11
 open GilVerif.Model.C11 GilVerif.Lemmas.C11
@@ -376,6 +376,63 @@ theorem C11_terminates (f : Fmt) (dev : Dev) (bytes : List UInt8) (st : Settings
 
 example : safe (decode .tga .sstream [0, 0, 10] { entry := .view, dst := .rgba8, x0 := 3, y0 := -1, dw := 7, dh := 0, vw := 2, vh := 2 }) = true :=
   C11_safe_targa _ _ _ (by intro h; cases h)
+
+/-! ## non-vacuity: what GIL's writers produce is read back `ok`, for images of every size
+
+  `Codec.encodeTga` / `encodeBmp` / `encodePnm` (Model/Codec.lean, written from the three `write.hpp` for property C12)
+  are the byte strings `write_view` produces. The theorems below say that the reader models of this file return an image
+  for them: the `ok` branch of `C11_safe_*` is inhabited by real files of every width and height, on every device. The only size
+  restriction is the rule the model shares with the harness: a single allocation above 64 KiB fails (`allocLimit`), so
+  `width * height * bytes per pixel <= 65536`. -/
+
+/-- `read_image` with default settings into an image of type `dst` -/
+def readImageOf (dst : Dst) : Settings := { entry := .image, dst := dst, x0 := 0, y0 := 0, dw := 0, dh := 0, vw := 0, vh := 0 }
+
+private theorem isOk_decode_of_runs {f : Fmt} {dev : Dev} {bytes : List UInt8} {st : Settings}
+    (h : Runs (match f with | .bmp => Bmp.run st | .pnm => Pnm.run st | .tga => Tga.run st)
+      { data := bytes, pos := 0, rest := bytes, failed := false, dev := dev, taint := none } (fun _ s' => s'.taint = none)) :
+    isOk (decode f dev bytes st) = true := by
+  obtain ⟨img, s', h1, h2⟩ := h
+  unfold decode runRaw
+  cases f <;> (simp only [StateT.run] at h1 ⊢; rw [h1]; simp only [h2]; rfl)
+
+/-- TARGA, generic in the pixel layout (`bgr8` / `bgra8` are the two the writer uses) -/
+theorem C11_wf_encode_targa {α} (f : Codec.PixFmt α) (henc : ∀ p, (f.enc p).length = f.size) (dst : Dst)
+    (hdst : (f.size = 3 ∧ dst = .rgb8) ∨ (f.size = 4 ∧ dst = .rgba8))
+    (img : Codec.Img α) (hwf : img.WF) (hw : 1 ≤ img.w) (hh : 1 ≤ img.h) (hsz : img.w * img.h * f.size ≤ 65536) (dev : Dev) :
+    isOk (decode .tga dev (Codec.encodeTga f img) (readImageOf dst)) = true := by
+  apply isOk_decode_of_runs
+  exact runs_tga_run_image (readImageOf dst) img.w img.h f.size rfl hdst rfl rfl rfl rfl hw hh hsz rfl
+    (by rw [tga_body_length f henc img hwf]) (live_init _ _)
+
+theorem C11_wf_encode_targa_rgb8 (img : Codec.Img Codec.Rgb8) (hwf : img.WF) (hw : 1 ≤ img.w) (hh : 1 ≤ img.h)
+    (hsz : img.w * img.h * 3 ≤ 65536) (dev : Dev) :
+    isOk (decode .tga dev (Codec.encodeTga Codec.bgr8 img) (readImageOf .rgb8)) = true :=
+  C11_wf_encode_targa Codec.bgr8 (fun _ => rfl) .rgb8 (Or.inl ⟨rfl, rfl⟩) img hwf hw hh hsz dev
+
+theorem C11_wf_encode_targa_rgba8 (img : Codec.Img Codec.Rgba8) (hwf : img.WF) (hw : 1 ≤ img.w) (hh : 1 ≤ img.h)
+    (hsz : img.w * img.h * 4 ≤ 65536) (dev : Dev) :
+    isOk (decode .tga dev (Codec.encodeTga Codec.bgra8 img) (readImageOf .rgba8)) = true :=
+  C11_wf_encode_targa Codec.bgra8 (fun _ => rfl) .rgba8 (Or.inr ⟨rfl, rfl⟩) img hwf hw hh hsz dev
+
+/-- BMP (24 / 32 bit, bottom-up, rows padded to 4 bytes), generic in the pixel layout -/
+theorem C11_wf_encode_bmp {α} (f : Codec.PixFmt α) (henc : ∀ p, (f.enc p).length = f.size) (dst : Dst)
+    (hdst : (f.size = 3 ∧ dst = .rgb8) ∨ (f.size = 4 ∧ dst = .rgba8))
+    (img : Codec.Img α) (hwf : img.WF) (hw : 1 ≤ img.w) (hh : 1 ≤ img.h) (hsz : img.w * img.h * f.size ≤ 65536) (dev : Dev) :
+    isOk (decode .bmp dev (Codec.encodeBmp f img) (readImageOf dst)) = true := by
+  apply isOk_decode_of_runs
+  exact runs_bmp_run_image (readImageOf dst) img.w img.h f.size rfl hdst rfl rfl rfl rfl hw hh hsz rfl
+    (by rw [bmp_body_length f henc img hwf]) (live_init _ _)
+
+theorem C11_wf_encode_bmp_rgb8 (img : Codec.Img Codec.Rgb8) (hwf : img.WF) (hw : 1 ≤ img.w) (hh : 1 ≤ img.h)
+    (hsz : img.w * img.h * 3 ≤ 65536) (dev : Dev) :
+    isOk (decode .bmp dev (Codec.encodeBmp Codec.bgr8 img) (readImageOf .rgb8)) = true :=
+  C11_wf_encode_bmp Codec.bgr8 (fun _ => rfl) .rgb8 (Or.inl ⟨rfl, rfl⟩) img hwf hw hh hsz dev
+
+theorem C11_wf_encode_bmp_rgba8 (img : Codec.Img Codec.Rgba8) (hwf : img.WF) (hw : 1 ≤ img.w) (hh : 1 ≤ img.h)
+    (hsz : img.w * img.h * 4 ≤ 65536) (dev : Dev) :
+    isOk (decode .bmp dev (Codec.encodeBmp Codec.bgra8 img) (readImageOf .rgba8)) = true :=
+  C11_wf_encode_bmp Codec.bgra8 (fun _ => rfl) .rgba8 (Or.inr ⟨rfl, rfl⟩) img hwf hw hh hsz dev
 
 /-
   -- OPEN (not proven): for ALL image sizes, the bytes GIL's writers produce decode `ok` in these models (C11_wf_encode).
